@@ -1135,6 +1135,53 @@ pub fn srv_conn(rec: &mut Rec, rng: &mut Rng, thorough: bool) {
             rec.oracle_fail("C13", "the request was not yielded once its body arrived", &sim.w.log);
         }
         sim.plans[c].sent = vec![tag(c, 0)];
+        // C13, pipelined: an earlier complete request and the Expect header block arrive in the SAME read, the
+        // application has not answered the earlier one yet and the client withholds the body: it still gets its 100
+        let e = sim.connect(rec);
+        sim.poll(rec);
+        let v11 = rng.chance(1, 2);
+        let both = format!(
+            "GET /c{}/r0 HTTP/1.1\r\n\r\nPUT /c{}/r1 HTTP/1.{}\r\nExpect: 100-continue\r\nContent-Length: 3\r\n\r\n",
+            e, e, if v11 { 1 } else { 0 }
+        );
+        sim.w.send(rec, e, both.as_bytes());
+        for _ in 0..3 {
+            sim.poll(rec);
+        }
+        sim.w.client_read(rec, e);
+        let want: &[u8] = if v11 { crate::suites::connsuites::CONT11 } else { crate::suites::connsuites::CONT10 };
+        if sim.w.clients[e].received != want {
+            rec.oracle_fail("C13", &format!("pipelined behind an unanswered request: client received {} before sending the body", hx(&sim.w.clients[e].received)), &sim.w.log);
+        }
+        sim.w.send(rec, e, b"abc");
+        for _ in 0..3 {
+            sim.poll(rec);
+        }
+        if !sim.w.yielded.iter().any(|(_, t)| *t == format!("/c{}/r1", e)) {
+            rec.oracle_fail("C13", "the pipelined request was not yielded once its body arrived", &sim.w.log);
+        }
+        sim.plans[e].sent = vec![tag(e, 0), tag(e, 1)];
+        // C11, pipelined: a valid request and a malformed one in the SAME read: the 400 covers both ("all previous
+        // unanswered requests will be dropped"); what is read afterwards is handled as by a fresh connection —
+        // exactly the later request is yielded, the dropped one never reappears
+        let f = sim.connect(rec);
+        sim.poll(rec);
+        let two = format!("GET /c{}/dropped HTTP/1.1\r\n\r\nBOGUS\r\n\r\n", f);
+        sim.w.send(rec, f, two.as_bytes());
+        sim.plans[f].sent_garbage = true;
+        for _ in 0..3 {
+            sim.poll(rec);
+        }
+        sim.w.client_read(rec, f);
+        let later = format!("GET /c{}/later HTTP/1.1\r\n\r\n", f);
+        sim.w.send(rec, f, later.as_bytes());
+        for _ in 0..3 {
+            sim.poll(rec);
+        }
+        let mine: Vec<String> = sim.w.yielded.iter().filter(|(_, t)| t.starts_with(&format!("/c{}/", f))).map(|(_, t)| t.clone()).collect();
+        if mine != vec![format!("/c{}/later", f)] {
+            rec.oracle_fail("C11", &format!("after a 400 that covered a valid and a malformed request, a later request was sent: yielded {:?}", mine), &sim.w.log);
+        }
         sim.settle(rec, rng);
         sim.w.teardown();
     }
